@@ -113,7 +113,8 @@ def variant(name, **kw):
                        conds=dict(HAVE_PTHREAD=False), **kw)
     if name in ("envwrap", "envwrap_serial"):
         wraps = ["read", "write", "pread", "pwrite", "open", "openat", "close", "dup", "lseek", "ftruncate", "fsync", "unlink",
-                 "malloc", "calloc", "realloc", "strdup", "strndup", "mmap", "readdir", "closedir"]
+                 "malloc", "calloc", "realloc", "strdup", "strndup", "mmap", "readdir", "closedir",
+                 "time", "clock_gettime", "gettimeofday"]
         ld = ["-fsanitize=address"] + ["-Wl,--wrap=" + w for w in wraps]
         conds = dict(HAVE_PTHREAD=False) if name == "envwrap_serial" else None
         return Variant(name, "clang", ASAN_FLAGS, ld, conds=conds,
